@@ -84,7 +84,7 @@ C17Clauses(ev) ==
             <<"C17.sub.untouched", ev.status # 0 /\ P.out \in {"old", "absent"},
               ~(ev.status # 0 /\ P.out \in {"old", "absent"}) \/ ev.outAfter = P.out>>,
             <<"C17.sub.complete", ev.status = 0 /\ P.out \in {"old", "absent"},
-              ~(ev.status = 0 /\ P.out \in {"old", "absent"}) \/ (ev.outAfter = "new" /\ ev.fileHash = ev.libHash)>> >>
+              ~(ev.status = 0 /\ P.out \in {"old", "absent"}) \/ (ev.outAfter = "new" /\ ev.fileHash \in ToSet(ev.libHashes))>> >>
     [] OTHER -> <<>>
 C16Clauses(ev) ==
   CASE ev.ev = "Generate" ->
@@ -98,9 +98,10 @@ C16Clauses(ev) ==
             <<"C16.all-models", ev.status = 0,
               ev.status # 0 \/ {hist[i].model : i \in {j \in DOMAIN hist : hist[j].ev = "Generate"}} = Models(P.args)>> >>
     [] ev.ev = "SubExit" ->
-         << <<"C16.sub.stdout=lib", ev.status = 0 /\ P.out = "none", ~(ev.status = 0 /\ P.out = "none") \/ ev.codeHash = ev.libHash>>,
+         \* (libHashes: the library text for every order of every pattern chunk -- that order is unspecified)
+         << <<"C16.sub.stdout=lib", ev.status = 0 /\ P.out = "none", ~(ev.status = 0 /\ P.out = "none") \/ ev.codeHash \in ToSet(ev.libHashes)>>,
             <<"C16.sub.file=lib", ev.status = 0 /\ P.out \in {"old", "absent"},
-              ~(ev.status = 0 /\ P.out \in {"old", "absent"}) \/ ev.fileHash = ev.libHash>> >>
+              ~(ev.status = 0 /\ P.out \in {"old", "absent"}) \/ ev.fileHash \in ToSet(ev.libHashes)>> >>
     [] OTHER -> <<>>
 Clauses(ev) == IF Claim = "C17" THEN C17Clauses(ev) ELSE IF Claim = "C16" THEN C16Clauses(ev) ELSE <<>>
 
